@@ -174,12 +174,17 @@ def _pump(proc, stdin_data, out_fd, err_fd, in_fd, timeout, is_pty):
     return bytes(out), bytes(err), timed_out, stdin_accepted
 
 
+NEUTRAL_PARENT = ['git', 'verif-neutral-parent']
+
+
 def run_delta(args, stdin=b'', env=None, cwd=None, mode='pipe', pty_size=(24, 80), timeout=20.0,
-              variant='hooks', trace=False, path_prefix=None, preload=None, parent_argv=None,
+              variant='hooks', trace=False, path_prefix=None, preload=None, parent_argv=NEUTRAL_PARENT,
               exe=None, home=None, wrapper=None, stdin_is_none=False):
     """Run delta once.  args: list of str (without argv[0]).  stdin: bytes.
-    parent_argv: if given (list of str, [0] is the impersonated command name), delta is started as a
-    child of a /bin/sh process whose /proc/<pid>/cmdline reads like parent_argv.
+    parent_argv: (list of str, [0] is the impersonated command name) delta is started as a child of a
+    /bin/sh process whose /proc/<pid>/cmdline reads like parent_argv.  The default is a "git" command with
+    a subcommand delta does not parse: delta then stops looking at other processes and the calling process
+    is deterministically "none", whatever else runs on the machine.  None = start delta directly.
     wrapper: list prefix e.g. ['valgrind', ...]."""
     w = workdir()
     e = base_env(env, path_prefix=path_prefix, home=home)
@@ -251,6 +256,9 @@ def run_delta(args, stdin=b'', env=None, cwd=None, mode='pipe', pty_size=(24, 80
         else:
             res.signal = None
             res.rc = os.WEXITSTATUS(status)
+            if parent_argv is not None and res.rc > 128 and (res.rc - 128) in (4, 6, 7, 8, 9, 11, 15, 31):
+                # the intermediate shell reports a child killed by a signal as 128+n
+                res.signal = res.rc - 128
     except ChildProcessError:
         res.rc = proc.returncode
         res.signal = None
